@@ -158,6 +158,19 @@ def rolledBackUpdDelUpTo (ops : List Op) (p : Nat) : Bool :=
         | _ => false)
     | _ => false)
 
+/-- … and a checkpoint (acknowledged or in flight) at an index after that rollback and ≤ p: only a checkpoint carries the
+    rolled-back UPDATE / DELETE into the file; without one the crash image is the older checkpoint plus the log, in which the
+    transaction is a loser, and the recovered contents are judged strictly. -/
+def rolledBackUpdDelCheckpointedUpTo (ops : List Op) (p : Nat) : Bool :=
+  (List.range (p + 1)).any (fun i => match ops[i]? with
+    | some (Op.sRollback k) | some (Op.sDrop k) =>
+      (List.range i).any (fun j => match ops[j]? with
+        | some (Op.sDml k' (.upd _ _ _)) => k' == k
+        | some (Op.sDml k' (.del _ _)) => k' == k
+        | _ => false)
+      && (List.range (p + 1)).any (fun j => i < j && (match ops[j]? with | some o => isCkpt o | none => false))
+    | _ => false)
+
 /-- no checkpoint has been acknowledged yet: the log reaches back to the creation of the tables -/
 def noCkptYet (ops : List Op) (acked : List Nat) : Bool :=
   !(acked.any (fun i => match ops[i]? with | some o => isCkpt o | none => false))
@@ -181,7 +194,7 @@ def judgeGroup (crit : String) (tol : Tol) (ops : List Op) (ok : List Bool) (tab
     else if tol.has "ckptWithOpenTxn" ∧ openTxnAtCkpt ops p then none
     else if tol.has "vacuumThenCrash" ∧ hasVacuumUpTo ops p then none
     else if tol.has "dropTableRecovery" ∧ hasDropUpTo ops p then none
-    else if tol.has "rolledBackUpdDel" ∧ rolledBackUpdDelUpTo ops p then none
+    else if tol.has "rolledBackUpdDel" ∧ rolledBackUpdDelCheckpointedUpTo ops p then none
     else if tol.has "logReachesCreation" ∧ noCkptYet ops g.acked then none
     else some s!"{why} during={kind} ph={g.phDone}/{g.phAll}"
 
